@@ -65,6 +65,6 @@ package module
 //@     invariant rangeindex == 0 && typeis(arguments[0], "string") ==> capacity == 0 && source == unboxStr(arguments[0]) && len(values) == 0 && sequence == nil
 //@     decreases 1 - rangeindex
 //@   loop 2:
-//@     invariant stack != nil && fresh(stack) && snap(iterator) == view(parsedval(source)) && 0 <= pos(iterator) && pos(iterator) <= len(snap(iterator))
-//@     invariant view(stack) == snap(iterator)[0:pos(iterator)]
+//@     invariant snap(iterator) == view(parsedval(source)) && 0 <= pos(iterator) && pos(iterator) <= len(snap(iterator)) && index == pos(iterator) && len(converted) == len(snap(iterator)) && fresh(converted)
+//@     invariant forall j :: 0 <= j && j < index ==> converted[j] == snap(iterator)[j]
 //@     decreases len(snap(iterator)) - pos(iterator)
